@@ -26,6 +26,16 @@ def step (_ : Unit) (ws : List String) : Unit × String :=
       | some bs =>
         let o := decodeWith Gen.wireGuards Gen.frameCap leanBDec bs
         ((), s!"{payloadStr bs} rt={resStr o.res} c={o.consumed}")
+  | "wstream" :: rest =>
+    -- messages separated by ";;": concatenation of the independent encodings
+    let groups := (rest.foldl (fun (acc : List (List String)) w =>
+      if w == ";;" then [] :: acc
+      else match acc with
+        | g :: gs => (g ++ [w]) :: gs
+        | [] => [[w]]) [[]]).reverse
+    let encs := groups.map (fun g => (parseMsg g).bind encode)
+    if encs.any Option.isNone then ((), "bad-op")
+    else ((), payloadStr (encs.filterMap id).flatten)
   | ["stream", h, _] =>
     match ofHex h with
     | none => ((), "bad-op")
